@@ -568,6 +568,7 @@ pub fn check_main(sc: &'static dyn Scenario, o: &CheckOpts) -> i32 {
     let mut exit = 0;
     let mut printed_known: BTreeSet<String> = BTreeSet::new();
     let mut reported: Vec<Value> = vec![];
+    let mut unconfirmed: Vec<String> = vec![];
     // crashes first
     for (idx, status) in &crashed {
         if *idx == u64::MAX {
@@ -646,14 +647,25 @@ pub fn check_main(sc: &'static dyn Scenario, o: &CheckOpts) -> i32 {
                 reported.push(json!({"class": f.violation.class, "key": key, "replay": opath.display().to_string(), "message": f.violation.msg}));
                 continue;
             }
-            println!("HARNESS-ERROR violation {} (run index {}) does not reproduce from its replay file {}: {:?}", key, f.index, path.display(), st.map(|o| String::from_utf8_lossy(&o.stdout).to_string()));
-            return 2;
+            if !reported.is_empty() {
+                // other violations of this batch replayed exactly and were reported; this one was seen in
+                // a worker process but depends on something a fresh process does not reproduce (state
+                // that leaked into a process-global object): say so, keep the confirmed verdict
+                println!("  (violation key {} at run index {} was observed but does not replay in a fresh process: {})", key, f.index, f.violation.msg);
+                continue;
+            }
+            unconfirmed.push(format!("violation {} (run index {}) does not reproduce from its replay file {}: {:?}", key, f.index, path.display(), st.map(|o| String::from_utf8_lossy(&o.stdout).to_string())));
+            continue;
         }
         println!("  [{}] {}", v.class, v.msg);
         println!("VIOLATION property={} replay={}", id, path.display());
         reported.push(json!({"class": v.class, "key": key, "replay": path.display().to_string(), "message": v.msg}));
     }
 
+    if reported.is_empty() && !unconfirmed.is_empty() {
+        println!("HARNESS-ERROR {}", unconfirmed[0]);
+        return 2;
+    }
     let wall = t0.elapsed().as_secs_f64();
     let info = sc.info();
     let incon_rate = agg.inconclusive as f64 / agg.runs.max(1) as f64;
